@@ -88,6 +88,15 @@ def main():
         res["detected"] = any(c["exit"] == 1 and any(l.startswith("VIOLATION") for l in c["lines"]) for c in res["checks"].values())
         res["detected_with_input"] = any(any(l.startswith("VIOLATION") and "no-failing-input-found" not in l for l in c["lines"]) for c in res["checks"].values())
     finally:
+        if a.skip_demo and os.path.exists(os.path.join(d, "result.json")):
+            # keep the confirmation recorded by the last full run
+            try:
+                prev = json.load(open(os.path.join(d, "result.json")))
+                for k in ("existing_tests", "demo"):
+                    if k in prev and k not in res:
+                        res[k] = prev[k]
+            except Exception:
+                pass
         json.dump(res, open(os.path.join(d, "result.json"), "w"), indent=1)
         if not a.keep:
             sh("git -C /repo worktree remove --force %s" % wt)
